@@ -1223,3 +1223,162 @@ def check_per_machine_double_count(ctx, rule_id: str, prefixes: tuple[str, ...],
                         )
     if not hits:
         chk.ok(rule_id, ", ".join(prefixes), "", f"{n_walks} walks over operations_by_machine, none accumulates a per-job / per-operation quantity")
+
+
+# --------------------------------------------------------------------------
+# private memos: `if self._m is None: self._m = <computed>; return self._m`
+def _touched_attrs(w, me: str) -> set[str]:
+    """Attributes of ``self`` a Write stores into / mutates (through aliases)."""
+    out = set()
+    tgt = w.event.data.get("target")
+    if isinstance(tgt, ast.Attribute) and isinstance(tgt.value, ast.Name) and tgt.value.id == me:
+        out.add(tgt.attr)
+
+    def walk(o):
+        if isinstance(o, tuple):
+            if len(o) >= 3 and o[0] == "attr" and o[1] == "self" and isinstance(o[2], tuple) and o[2]:
+                out.add(o[2][0])
+            for x in o:
+                walk(x)
+
+    for o in w.origins:
+        walk(o)
+    return out
+
+
+def memo_discipline(ctx, ci) -> dict:
+    """{attribute: compute method} for the private memo attributes of class
+    ``ci`` that are kept correctly:
+
+    * the attribute is private, ``None`` when empty, and filled (with something
+      other than None) in exactly one method Q, only under ``if self.<m> is None``;
+      Q stores nothing else on ``self``;
+    * every other method (or property setter) of the class that stores into /
+      mutates an attribute Q's computation reads also sets ``self.<m> = None``
+      as an unconditional statement of its body.
+
+    A write that fills such a memo changes no observable state: rules about
+    "queries write nothing" skip it.  A memo that is NOT invalidated by one of
+    the writers is not in the result - the fill then counts as what it is, a
+    write that makes the query's answer depend on the history."""
+    cache = getattr(ctx, "_memo_disc", None)
+    if cache is None:
+        cache = {}
+        try:
+            ctx._memo_disc = cache
+        except Exception:  # pragma: no cover
+            pass
+    if ci.qualname in cache:
+        return cache[ci.qualname]
+    out: dict = {}
+    cache[ci.qualname] = out
+    methods = [m for m in list(ci.methods.values()) + list(ci.setters.values()) if not isinstance(m.node, ast.Lambda) and m.params]
+    stores: dict[str, list] = {}
+    for m in methods:
+        me = m.params[0]
+        for n in own_nodes(m.node):
+            tgs = n.targets if isinstance(n, ast.Assign) else [n.target] if isinstance(n, (ast.AnnAssign, ast.AugAssign)) else []
+            for t in tgs:
+                if isinstance(t, ast.Attribute) and isinstance(t.value, ast.Name) and t.value.id == me:
+                    stores.setdefault(t.attr, []).append((m, n, getattr(n, "value", None)))
+    method_names = set(ci.methods) | set(ci.setters)
+    for attr, ws in stores.items():
+        if not attr.startswith("_") or attr.startswith("__"):
+            continue
+        is_none = lambda v: isinstance(v, ast.Constant) and v.value is None  # noqa: E731
+        fills = [(m, n) for m, n, v in ws if not is_none(v)]
+        if not fills or not any(is_none(v) for _m, _n, v in ws):
+            continue
+        qs = {m.qualname: m for m, _n in fills}
+        if len(qs) != 1:
+            continue
+        q = next(iter(qs.values()))
+        if q.name == "__init__" or q in ci.setters.values():
+            continue
+        me = q.params[0]
+
+        def under_none_test(n, q=q, me=me, attr=attr):
+            p = q.module.parents.get(n)
+            while p is not None and p is not q.node:
+                if isinstance(p, ast.If) and n_in(p.body, n):
+                    t = p.test
+                    if (
+                        isinstance(t, ast.Compare) and len(t.ops) == 1 and isinstance(t.ops[0], ast.Is)
+                        and isinstance(t.comparators[0], ast.Constant) and t.comparators[0].value is None
+                        and isinstance(t.left, ast.Attribute) and t.left.attr == attr
+                        and isinstance(t.left.value, ast.Name) and t.left.value.id == me
+                    ):
+                        return True
+                p = q.module.parents.get(p)
+            return False
+
+        def n_in(block, n):
+            return any(x is n for b in block for x in ast.walk(b))
+
+        if not all(isinstance(n, (ast.Assign, ast.AnnAssign)) and under_none_test(n) for _m, n in fills):
+            continue
+        if any(a != attr and any(m is q for m, _n, _v in ws2) for a, ws2 in stores.items()):
+            continue
+        try:
+            own = ctx.effects.own_writes(q, ci)
+        except Exception:
+            continue
+        if any(_touched_attrs(w, me) - {attr} for w in own):
+            continue
+        # what the computation reads (Q and the methods of the class it runs)
+        reads: set[str] = set()
+        try:
+            clo = ctx.effects.closure(q, ci, max_depth=3)
+        except Exception:
+            continue
+        for f, _rc, _via in clo:
+            if f.cls is not None and (f.cls.qualname in ci.mro or ci.qualname in f.cls.mro):
+                reads |= self_attr_reads(f)
+        reads -= {attr}
+        reads -= method_names
+        if not reads:
+            continue
+        ok = True
+        for w_ in methods:
+            if w_ is q:
+                continue
+            wme = w_.params[0]
+            try:
+                touched = set().union(*[_touched_attrs(x, wme) for x in ctx.effects.own_writes(w_, ci)]) if ctx.effects.own_writes(w_, ci) else set()
+            except Exception:
+                ok = False
+                break
+            if not (touched & reads):
+                continue
+            inval = any(
+                isinstance(st, (ast.Assign, ast.AnnAssign)) and st.value is not None and is_none(st.value)
+                and any(
+                    isinstance(t, ast.Attribute) and t.attr == attr and isinstance(t.value, ast.Name) and t.value.id == wme
+                    for t in (st.targets if isinstance(st, ast.Assign) else [st.target])
+                )
+                for st in w_.node.body
+            )
+            if not inval:
+                ok = False
+                break
+        if ok:
+            out[attr] = q
+    return out
+
+
+def is_memo_fill(ctx, ev) -> bool:
+    """The write event fills a correctly kept private memo of its class
+    (see memo_discipline)."""
+    if ev.kind != "write":
+        return False
+    fi = ev.fi
+    ci = getattr(fi, "cls", None)
+    tgt = ev.data.get("target")
+    if ci is None or not fi.params or not (isinstance(tgt, ast.Attribute) and isinstance(tgt.value, ast.Name) and tgt.value.id == fi.params[0]):
+        return False
+    try:
+        md = memo_discipline(ctx, ci)
+    except Exception:
+        return False
+    q = md.get(tgt.attr)
+    return q is not None and q.qualname == fi.qualname.split("#")[0]
